@@ -48,4 +48,9 @@ theorem csvOk_early (d s l v : Nat) (t : Bool) (hd : d < 65536) (hs : s < d) :
   simp [csvOk, h1, h4, h5]
   intro _ _ _; omega
 
+theorem truthy_num (x : Nat) (h : x ≠ 0) : truthy (.num x) = true := by
+  cases x with
+  | zero => exact absurd rfl h
+  | succ k => rfl
+
 end LndModel.C05
